@@ -3,10 +3,10 @@
    WHEN LANDING design_notes/C13_<name>_fix.patch: flip the constant to `true`, set the finding to "fixed", and drop the pre-fix
    alternative from tools/translators/gen_c13.py (named next to each constant).  Executable definitions only. *)
 (* F-CFG-ALIASMAP  C13_alias_submap_fix.patch          gen_c13.py: `plain` in translate_deep_update *)
-Definition expect_rebuilds_copy : bool := false.
+Definition expect_rebuilds_copy : bool := true.
 (* F-CFG-WRAPPER   C13_defaultvalue_wrapper_fix.patch  gen_c13.py: `hs == DETACHED_BUILDER` in translate_create *)
-Definition expect_strips_default_markers : bool := false.
+Definition expect_strips_default_markers : bool := true.
 (* F-CFG-EMPTYDOC  C13_empty_document_fix.patch        gen_c13.py: PIN_ALTERNATIVES become the pins (--repin) *)
-Definition expect_empty_document_is_identity : bool := false.
+Definition expect_empty_document_is_identity : bool := true.
 (* F-CFG-REPEATC   C13_repeated_configuration_fix.patch gen_c13.py: action `None` in check_pins *)
-Definition expect_configuration_accumulates : bool := false.
+Definition expect_configuration_accumulates : bool := true.
